@@ -11,13 +11,16 @@ for f in ("patch.diff", "demo.rs", "demo.md"):
     if os.path.exists(os.path.join(src, f)):
         shutil.copy(os.path.join(src, f), os.path.join(dst, f))
 meta = json.load(open(os.path.join(src, "meta.json")))
-conf = [l for l in open("/tmp/wt/%s.confirm" % ID).read().splitlines() if l.startswith("RESULT")]
-idx = {"a": 0, "b": 1}[var]
+rp = "/tmp/wt/%s.%s.result" % (ID, var)
+conf = [l for l in open(rp).read().splitlines() if l.startswith("RESULT")] if os.path.exists(rp) else []
+idx = 0
 meta_out = {
     "property": ID, "summary": meta.get("summary"), "needs": meta.get("needs"), "files": meta.get("files"),
     "confirmed_by_me": conf[idx] if len(conf) > idx else "pending",
-    "what_i_ran": ["seedconfirm.sh in scratch worktree /tmp/wt/%s: git apply patch.diff; cargo build --offline; cargo test --workspace "
-                   "--offline (existing suite); cargo test --test seeded_confirm with and without the change" % ID,
+    "what_i_ran": ["seedconfirm.sh %s %s: scratch worktree /tmp/wt/%s moved to /repo's HEAD; git apply patch.diff; cargo build --offline; "
+                   "cargo test --workspace --offline --no-fail-fast --lib --tests, then --doc (existing suite, unedited; a failing test is "
+                   "re-run 3 times alone to tell a flaky test from a broken one); cargo test --test seeded_confirm (the demonstration) "
+                   "with the change and after git checkout -- src" % (ID, var, ID),
                    "seedeval.sh: git -C /repo apply patch.diff; ./check <id> --tier quick; git -C /repo checkout -- ."],
     "caught_by_checks": [c for c in caught.split(",") if c], "not_caught_by": [c for c in missed.split(",") if c],
     "author_ran": meta.get("ran"),
